@@ -655,23 +655,30 @@ Definition dummy_ind : mind := mkMI [] [] false O.
 Definition pick {X} (chosen : list mind) (recs : list (option mrec)) (f : mrec -> X) (old : list X) (d : X) : list X :=
   map2 (fun ind r => match r with Some r => f r | None => nth (mi_pidx ind) old d end) chosen recs.
 
+(* second half of update: the parameter loops and the realignment of the per-parent lists, given
+   the chosen and not chosen individuals *)
+Definition mo_update_core (P : mparams) (st : mstate) (chosen not_chosen : list mind) : mstate :=
+  let '(recs, psL, sgL) := mo_loop_chosen P st chosen (ms_psucc st) (ms_sigmas st) in
+  let '(psL, sgL) := mo_loop_not_chosen P not_chosen psL sgL in
+  mkMS (map mi_x chosen) (map mi_wv chosen)
+       (pick chosen recs mr_sigma sgL c0) (pick chosen recs mr_A (ms_A st) [])
+       (pick chosen recs mr_invC (ms_invC st) [])
+       (pick chosen recs mr_pc (ms_pc st) []) (pick chosen recs mr_psucc psL c0).
+
+(* the candidates of update: population + self.parents, the parents tagged ("p", i) *)
+Definition mo_candidates (st : mstate) (population : list mind) : list mind :=
+  population ++ map2 (fun i xw => mkMI (fst xw) (snd xw) false i)
+                     (seq 0 (length (ms_parents st))) (combine (ms_parents st) (ms_pfits st)).
+
 (* update.  population = the offspring (tagged "o"); hv = indicator results.  Returns the new
    state, the indices of chosen / not chosen candidates, and the mid fronts given to the indicator *)
 Definition mo_update (P : mparams) (st : mstate) (population : list mind) (hv : list nat)
   : mstate * list nat * list nat * list (list nat) :=
-  let parents := map2 (fun i xw => mkMI (fst xw) (snd xw) false i)
-                      (seq 0 (length (ms_parents st))) (combine (ms_parents st) (ms_pfits st)) in
-  let cands := population ++ parents in
+  let cands := mo_candidates st population in
   let '(chosen_i, not_chosen_i, seen) := mo_select (mp_mu P) (map mi_wv cands) hv in
   let chosen := map (fun i => nth i cands dummy_ind) chosen_i in
   let not_chosen := map (fun i => nth i cands dummy_ind) not_chosen_i in
-  let '(recs, psL, sgL) := mo_loop_chosen P st chosen (ms_psucc st) (ms_sigmas st) in
-  let '(psL, sgL) := mo_loop_not_chosen P not_chosen psL sgL in
-  let pick {X} := @pick X chosen recs in
-  (mkMS (map mi_x chosen) (map mi_wv chosen)
-        (pick mr_sigma sgL c0) (pick mr_A (ms_A st) []) (pick mr_invC (ms_invC st) [])
-        (pick mr_pc (ms_pc st) []) (pick mr_psucc psL c0),
-   chosen_i, not_chosen_i, seen).
+  (mo_update_core P st chosen not_chosen, chosen_i, not_chosen_i, seen).
 
 (* one round and a history; evalf : genotype -> weighted values *)
 Definition mo_round (P : mparams) (evalf : vec -> list T) (st : mstate) (arz : list vec) (js hv : list nat)
